@@ -22,9 +22,9 @@ type Step struct {
 	C    int    `json:"c"`   // close code
 	St   string `json:"st"`  // predicted State() after the step
 	Pend int    `json:"pend"`
-	Nw   int    `json:"nw"`  // predicted number of frames put on the wire by the step
-	Err  string `json:"err"` // predicted result of the last completion in the step ("parked": none)
-	N    int    `json:"n"`   // real-socket scenarios: payload length of a submitted message / repeat count
+	Nw   int    `json:"nw"`   // predicted number of frames put on the wire by the step
+	Err  string `json:"err"`  // predicted result of the last completion in the step ("parked": none)
+	N    int    `json:"n"`    // real-socket scenarios: payload length of a submitted message / repeat count
 	Then int    `json:"then"` // call: follow-ups - the completion callback, if it reports success, issues the same call again with then-1
 	Glue int    `json:"glue"` // peer: 1 = the frame is put into the same segment as the item before it (if that is still unread)
 }
@@ -60,19 +60,20 @@ func parseMode(mode string, seed int64) opts {
 
 // session = one websocket.Stream attached to one scripted transport.
 type session struct {
-	ws     *websocket.Stream
-	tp     *Script
-	log    *Log
-	nextID int
-	readID int
-	buf    []byte
-	o      opts
-	sid    int
-	open   map[int]string  // calls in flight (driver's ledger)
-	feed   func(rdItem)    // makes peer output available to the client
-	wlenOf func(t int) int // length of submitted payloads (nil: small)
-	ownTok bool            // payload tokens of writes are 100 + the driver's own call id (schedules with follow-up calls)
-	glue   bool            // the peer event being fed joins the segment of the item before it
+	ws      *websocket.Stream
+	tp      *Script
+	log     *Log
+	nextID  int
+	readID  int
+	buf     []byte
+	o       opts
+	sid     int
+	open    map[int]string  // calls in flight (driver's ledger)
+	feed    func(rdItem)    // makes peer output available to the client
+	wlenOf  func(t int) int // length of submitted payloads (nil: small)
+	ownTok  bool            // payload tokens of writes are 100 + the driver's own call id (schedules with follow-up calls)
+	glue    bool            // the peer event being fed joins the segment of the item before it
+	ctlSeen int             // control frames handed to the control callback so far
 }
 
 var sharedIO *sonic.IO
@@ -211,6 +212,7 @@ func closeCode(payload []byte) int {
 }
 
 func (s *session) gotControl(id int, op websocket.Opcode, payload []byte) {
+	s.ctlSeen++
 	switch op {
 	case websocket.OpcodePing:
 		s.log.Got(id, "ping", Token(payload), 0)
@@ -290,6 +292,18 @@ func (s *session) callThen(api string, t, c, then int) {
 		}
 	}
 	log.Call(api, id, t, c)
+	pendBefore, ctlBefore := ws.Pending(), s.ctlSeen
+	defer func() {
+		// An asynchronous read started with nothing queued for flushing has, when the call returns, either
+		// completed or put its transport read in place - whatever write happens to be in flight. (Unless it met
+		// a buffered control frame on its way: the reply is then flushed first.)
+		if (api == "AsyncNextFrame" || api == "AsyncNextMessage") && s.tp != nil && s.tp.deferred && pendBefore == 0 &&
+			s.ctlSeen == ctlBefore && ws.Pending() == 0 {
+			if _, inflight := s.open[id]; inflight && !s.tp.ReadParked() {
+				s.log.Env("read-not-started")
+			}
+		}
+	}()
 	switch api {
 	case "NextFrame":
 		s.readID = id
